@@ -63,8 +63,8 @@ def opsC18 : List (String × Op) := [
       | none => true
     match subbasinsPfafstetter pits ds seq usMain uparea mask depth with
     | none => throw "fuel"
-    | some (lab, outs, tie) =>
-      pure [("model.labels", lab), ("model.idxs", ofNatList outs), ("tie", ofBool tie),
+    | some (lab, outs, tie, ok) =>
+      pure [("model.labels", lab), ("model.idxs", ofNatList outs), ("tie", ofBool tie), ("model.ib_ok", ofBool ok),
             ("impl.sub_ok", ofBool (subOK ds implO implL)),
             ("impl.digits_ok", ofBool (digitsOK depth implL)),
             ("impl.link_ok", ofBool (linkOK ds depth implL)),
